@@ -9,8 +9,8 @@ SHAPE_NOTE = "The alphabet is a heuristic quotient (font-derived lookup-coverage
 CHECKS = {
  "C05": dict(
    level="exploration",
-   text="Every corpus face libharfbuzz opens x every string up to the tier's length over its font-derived alphabet, the script packs and the normalisation pack x directions, per-axis min/max variations, global/ranged/optional features (through one reused feature array), cluster levels and flags: harfbuzz.Buffer.Shape compared field by field with hb_shape of the system libharfbuzz 6.0.0 (cgo) on the same bytes. Domain D is defined by 12 rules (DESIGN.md C05): cmap-layer differences (C10/C11), Graphite fonts, growth-limit outputs, bitmap-only and COLR fonts, Arabic fallback shaping, vertical runs without vmtx, active FeatureVariations, USE scripts, marks with multiple substitution, mapped SOFT HYPHEN, FFTM-era Amiri.",
-   note="The reference is HarfBuzz 6.0.0 while the port follows a later upstream: agreement is claimed on D only, where go-text == 6.0.0 on the whole enumeration of the unchanged tree; rules R7, R9, R11, R12 are unresolved classes (version drift or port defect could not be told apart in the sandbox). Built as a cgo variant of the check binary; setup fails loudly if it cannot link.",
+   text="Every corpus face libharfbuzz opens x every string up to the tier's length over its font-derived alphabet, the script packs and the normalisation pack x directions, per-axis min/max variations, global/ranged/optional features (through one reused feature array), cluster levels and flags: harfbuzz.Buffer.Shape compared field by field with hb_shape of the system libharfbuzz 6.0.0 (cgo) on the same bytes. Domain D is defined by 11 rules (DESIGN.md C05): cmap-layer differences (C10/C11), Graphite fonts, growth-limit outputs, bitmap-only and COLR fonts, Arabic fallback shaping, vertical runs without vmtx, active FeatureVariations, USE scripts, mapped SOFT HYPHEN, FFTM-era Amiri.",
+   note="The reference is HarfBuzz 6.0.0 while the port follows a later upstream: agreement is claimed on D only, where go-text == 6.0.0 on the whole enumeration of the unchanged tree; rules R7, R9, R12 are unresolved classes (R11 was resolved by fix cba4f71) (version drift or port defect could not be told apart in the sandbox). Built as a cgo variant of the check binary; setup fails loudly if it cannot link.",
    technique="bounded exhaustive differential enumeration against a live reference implementation (E1)",
    design="1/C05", engine="E1 enum"),
  "C10": dict(
@@ -19,6 +19,12 @@ CHECKS = {
    note="Tolerances and domain rules (DESIGN.md C10): extents of variable instances +-1 unit (rounding of the far edge changed between HarfBuzz releases); x/image rounds transformed component points to whole units (tolerance max(4, upem/128) units for glyf, 8 units for CFF) and overflows its 32-bit fixed point for |coordinate| x ppem >= 2^31 (skipped, counted); the glyf outline is shifted by lsb - xMin like HarfBuzz/FreeType (accepted against x/image only when it lands on the XBearing of GlyphExtents or equals the libharfbuzz drawing); faces with both glyf and CFF, bitmap/colour/SVG glyph data are not compared for extents/outlines. Built as the cgo variant of the check binary.",
    technique="bounded exhaustive differential enumeration (every glyph of every corpus face x corner design coordinates) against two live reference decoders (E1)",
    design="1/C10", engine="E1 enum"),
+ "C18": dict(
+   level="exploration",
+   text="Every corpus face without AAT substitution (672) x {rule witnesses: the rune sequences spelling every ligature, context / chained-context rule (3 formats, incl. rules without nested lookups), reverse chaining rule, kerning pair per value-record signature (incl. device/variation-only records), cursive and mark attachment of the face's own GSUB/GPOS lookups and kern pairs, alone and embedded in neutral context; every string up to the tier's length over the font-derived alphabet and the script packs} x {native, opposite direction} x cluster levels 0/1 x {no feature, liga off, kern off, first optional feature} x {default instance, per-axis max/min}. For every shaped result every subset of the safe boundaries (<= 3 boundaries; else every single cut + all cuts): pieces shaped through Buffer.AddRunes(text, start, len) with Bot/Eot cleared at interior ends, concatenated in visual order, compared glyph by glyph (id, cluster, advances, offsets) with the whole-text result; defined glyph flags uniform per cluster.",
+   note="8 known findings (known_findings.jsonl): non-native directions per complex shaper and three classes of Indic broken/decomposable sequences, all with identical whole/piece results in libharfbuzz 6.0.0 (cmd/hbcut), i.e. behaviour of the reference shaper that C05 requires. Violation keys carry shaper class, native/non-native direction and the lookup type of the witness, so other violations are still reported. Witnesses per lookup and pairs per signature are capped per tier (counted in the evidence).",
+   technique="bounded exhaustive enumeration of inputs (rule-witness quotient of the font's own lookups + alphabets) x configurations x every safe cut set, differential oracle whole vs pieces (E1)",
+   design="1/C18", engine="E1 enum"),
  "C01": dict(
    level="exploration",
    text="Every corpus face (752) x every string up to the tier's length over its font-derived alphabet and the script packs it covers x {6 directions, every sub-run with context, out-of-contract bounds, 8 script tags, sizes, features, language} through shaping.Shape and x {7 flag values x 3 cluster levels x 2 directions} through harfbuzz.Buffer.Shape; totality (panic, hang, memory attributed to the journalled case), output budget, reported range, cluster membership/monotonicity/count laws.",
